@@ -1166,6 +1166,34 @@ def _thread_flags(body: list[ast.stmt]) -> bool:
     return changed
 
 
+def _lower_classifying_setcomps(fn: ast.AST) -> None:
+    """`H = {s for s in ids if <classification>}` whose test only became visible by inlining -> `H = set(); for s in ids: if ..: H.add(s)`"""
+    from .repo import _classifying_setcomp
+    for parent in ast.walk(fn):
+        for fld in ("body", "orelse", "finalbody"):
+            blk = getattr(parent, fld, None)
+            if not isinstance(blk, list):
+                continue
+            out, changed = [], False
+            for st in blk:
+                if isinstance(st, ast.Assign) and len(st.targets) == 1 and isinstance(st.targets[0], ast.Name) and _classifying_setcomp(st.value) \
+                        and not any(isinstance(y, ast.Name) and y.id == st.targets[0].id for y in ast.walk(st.value)):
+                    X, g = st.targets[0].id, st.value.generators[0]
+                    test = g.ifs[0] if len(g.ifs) == 1 else ast.BoolOp(ast.And(), list(g.ifs))
+                    add = ast.Expr(ast.Call(ast.Attribute(ast.Name(X, ast.Load()), "add", ast.Load()), [st.value.elt], []))
+                    new = [ast.Assign([ast.Name(X, ast.Store())], ast.Call(ast.Name("set", ast.Load()), [], [])),
+                           ast.For(g.target, g.iter, [ast.If(test, [add], [])], [])]
+                    for s_ in new:
+                        ast.copy_location(s_, st)
+                        ast.fix_missing_locations(s_)
+                    out += new
+                    changed = True
+                else:
+                    out.append(st)
+            if changed:
+                blk[:] = out
+
+
 def _beta_reduce_lambdas(fn: ast.FunctionDef) -> bool:
     """`g = lambda p, q: E` (bound once) and later `g(a, b)` with plain names / constants as arguments: the call is
     E[p := a, q := b], provided nothing that E reads is re-bound after the lambda was made and `g` is only ever called."""
@@ -2102,6 +2130,7 @@ def apply(repo) -> dict:
             from .repo import _unroll_literal_quantifiers, _hoist_if_walrus
             _unroll_literal_quantifiers(f.node)
             _hoist_if_walrus(f.node)
+            _lower_classifying_setcomps(f.node)
         # a loop over a list that was only built to be looped over is the loop over its source (everywhere: collecting
         # first and looping afterwards is a common way to write the same scan)
         if _unfold_comprehension_loops(f.node):
